@@ -190,7 +190,7 @@ empty) and is accepted by the validation (`errs = []`), when **every recorded ch
 not user-ordered (`topOnly`; decidable; e.g. a module whose defaults sit in top-level leaves, leaf-lists, choices and cases):
 `lyd_diff_apply_all t (validateDiff t) = validate t`, literally (`valdiffExact`), the change set has exactly one node per recorded
 change, and — by the lemmas of the proof — below the top level, where nothing is recorded, nothing changed (`subtreeNode_fresh`),
-`lyd_validate_new` deleted nothing (`validateNew_fresh`) and `lyd_validate_final_r` only set flags (`finalR_obs`).
+`lyd_validate_new` deleted nothing (`validateNew_freshLevel`) and `lyd_validate_final_r` only set flags (`finalR_obs`).
 (Changes BELOW the top level — chains of copied parents merged into one diff tree — are the OPEN part.) -/
 theorem valdiff_exact_partial_fresh (X : SchemaX) (o : VOpts) (fx : Diff.Fixes) (t : List DNode)
     (hok : OkBelowL X.base X.top) (hf : freshExplL t = true) (htop : topOnly X o t = true)
